@@ -18,12 +18,13 @@ fn u2f_enc_version() {
 fn u2f_enc_authentication_response() {
     let sig: [u8; 4] = kani::any();
     let counter: u32 = kani::any();
-    let up: bool = kani::any();
-    let flags = if up { Flags::UP } else { Flags::empty() };
+    // every flag byte the type can hold (the response carries the flags of the user check, not only UP)
+    let pb: u8 = kani::any();
+    let Some(flags) = Flags::from_bits(pb) else { return; };
     let r = AuthenticationResponse { user_presence: flags, counter, signature: sig.to_vec() }.encode();
     // presence byte | big-endian counter | signature | 0x9000
     assert!(r.len() == 1 + 4 + 4 + 2);
-    assert!(r[0] == if up { 1 } else { 0 });
+    assert!(r[0] == pb);
     assert!(r[1] == (counter >> 24) as u8 && r[2] == (counter >> 16) as u8 && r[3] == (counter >> 8) as u8 && r[4] == counter as u8);
     assert!(r[5] == sig[0] && r[6] == sig[1] && r[7] == sig[2] && r[8] == sig[3]);
     assert!(r[9] == 0x90 && r[10] == 0x00);
